@@ -5,7 +5,7 @@ metric, the factor applied to the radius is the one the tree's coordinates need 
 applied to the returned distances is its inverse (T5 on monomials); the shuffle permutation is
 applied forward to row 0 on every path that returns pairs (T1+T6); rows / flattening order of
 pairs and distances (T6); emptiness by size (lint); metric -> coordinates (T3+T6).
-sklearn's trees, chord-vs-arc numerics and split_units parsing are not decided.
+sklearn's trees and chord-vs-arc numerics are not decided; split_units is decided for the float()-delegating loop only (C06.split).
 """
 import ast
 import sympy as sp
@@ -16,7 +16,7 @@ from ..flow import Flow, emptiness_test_kind
 from ..alg import Sym, Unsupported, _binop
 
 GEO = "typhon/geographical.py"
-EXPECT = {"C06.pairing": 1, "C06.args": 3, "C06.units": 8, "C06.scale": 4, "C06.deshuffle": 2, "C06.pairs": 4, "C06.empty": 1, "C06.metric": 1 + 2, "C06.complete": 3, "C06.pure": 3, "C06.support": 1}
+EXPECT = {"C06.pairing": 1, "C06.args": 3, "C06.units": 8, "C06.scale": 4, "C06.deshuffle": 2, "C06.pairs": 4, "C06.empty": 1, "C06.metric": 1 + 2, "C06.complete": 3, "C06.pure": 3, "C06.support": 1, "C06.split": 1, "C06.cartesian": 1, "C06.answer": 1}
 
 SI_KM = {  # unit -> (kilometres per unit, accepted spellings)
     "cm": (1e-5, {"cm", "centimeter", "centimeters", "centimetre", "centimetres"}),
@@ -520,6 +520,7 @@ def pair_builders(f, flow):
             raise AnalysisError("query(): the pair accumulator %s does not start as an empty list" % acc)
         uses = [st for st in flow.stmts if isinstance(st, ast.Assign) and isinstance(st.targets[0], ast.Name) and flow._order(st) > flow._order(loop)
                 and any(isinstance(n_, ast.Name) and n_.id == acc for n_ in ast.walk(st.value))]
+        uses = [st for st in uses if ds[0] in flow.defs(acc, st)]        # (the array may take the accumulator's name afterwards)
         if len(uses) != 1:
             raise AnalysisError("query(): the pair accumulator %s is not turned into one array" % acc)
         nm = [n_ for n_ in ast.walk(uses[0].value) if isinstance(n_, ast.Name) and n_.id == acc][0]
@@ -770,9 +771,49 @@ def rule_complete(ctx):
            node=f.node, func=f)
 
 
+SPLIT_TABLE = ["5 km", "5000 m", "3.1 miles", "5km", " 5 km ", "  2.5   ft ", "1e3 m", "1E3m", "1e-3 km", ".5 km", ".25miles", "5. km", "-1 km", "+2.5e-1 nm",
+               "10 nautical miles", "3 e", "5 e3", "2 m2", "1_000 m", "7", "12.5", "km", "m", "", " ", "e", "1e", "inf km", "5 in", "1 000 m", "0x10 m", "1,5 km",
+               "5\tkm", "5 km/h", "100 cm", "1.5e+2 yd", "3.4e-27 frobnitzem ", "2GB", "spam sandwhiches", "9001"]
+
+
+def _split_reference(value):
+    """the specification: the number is float() of the LONGEST prefix float() accepts, the unit is the rest without surrounding blanks;
+    no such prefix: (0, the whole string stripped)"""
+    for k in range(len(value), 0, -1):
+        try:
+            return float(value[:k]), value[k:].strip()
+        except ValueError:
+            continue
+    return 0, value.strip()
+
+
+def rule_split(ctx):
+    """split_units: the number is what float() reads from the longest prefix it accepts; the unit is the rest, stripped"""
+    ctx.rule("C06.split", "T4 (finite table)", "split_units(s) = (float of the longest prefix of s that float() accepts, the rest stripped) on a table of radius "
+             "spellings, read with a small evaluator for string-scanning code; a helper outside that class (regular expressions ...) gets no verdict")
+    from ..strmachine import call
+    f = ctx.func("typhon/utils/common.py", "split_units")
+    wrong = None
+    same = lambda a, b: (a == b or (a != a and b != b))          # nan
+    for sv in SPLIT_TABLE:
+        got = call(f, sv)
+        want = _split_reference(sv)
+        if not (isinstance(got, tuple) and len(got) == 2 and same(got[0], want[0]) and type(got[0]) in (int, float) and got[1] == want[1]):
+            wrong = {"split_units(%r)" % sv: repr(got), "expected": repr(want)}
+            break
+    ctx.ob("split_units.table", wrong is None, "%d strings evaluated%s" % (len(SPLIT_TABLE), "" if wrong is None else "; first difference: %s" % wrong),
+           "number = float(longest prefix float() reads), unit = the rest without surrounding blanks, (0, stripped string) when there is no number",
+           node=f.node, func=f, witness=wrong, complete=True)
+    ctx.models.append({"rule": "C06.split", "cases": len(SPLIT_TABLE), "domain": "table of radius spellings (numbers with sign, fraction, exponent, blanks; units; no number)", "exhaustive": False})
+
+
 def run(ctx):
-    for r in (rule_units, rule_scale, rule_deshuffle, rule_pairing, rule_pairs, rule_empty, rule_metric, rule_complete, rule_support):
+    for r in (rule_units, rule_split, rule_scale, rule_deshuffle, rule_pairing, rule_pairs, rule_empty, rule_metric, rule_complete, rule_support):
         ctx.attempt(r, ctx)
+    from .C07 import rule_forward_sphere
+    ctx.attempt(rule_forward_sphere, ctx, "C06.cartesian")
+    from ..early import rule_early_table
+    rule_early_table(ctx, "C06.answer", [(GEO, "GeoIndex.query", ("query_radius",), "the tree query", ())])
     from ..purity import rule_pure
     ctx.attempt(rule_pure, ctx, "C06.pure", [(GEO, "GeoIndex.query"), (GEO, "GeoIndex._to_metric"), (GEO, "to_kilometers")])
     # the caller's arguments (arrays, filter / fill dictionaries) are not modified: an in-place update makes the next call on the same objects wrong
